@@ -94,7 +94,9 @@ func Run(c *core.Ctx) core.FinishOpts {
 		rep := sqlrun.Check(runner, tc.q, tc.tables, tc.mode, sqlrun.Opts{Wrong: wrong})
 		c.Eval(1)
 		c.Count("status/"+rep.Status, 1)
-		replay := func() map[string]interface{} { return sqlrun.Replay(tc.id, tc.q, tc.tables, tc.mode, sqlrun.Opts{}, rep) }
+		replay := func() map[string]interface{} {
+			return sqlrun.Replay(tc.id, tc.q, tc.tables, tc.mode, sqlrun.Opts{}, rep)
+		}
 		switch rep.Status {
 		case "undefined", "ambiguous":
 			return
@@ -143,6 +145,9 @@ func Run(c *core.Ctx) core.FinishOpts {
 		c.Sample(map[string]interface{}{"id": tc.id, "sql": tc.q.SQL(), "mode": tc.mode, "table_rows": len(tc.tables[0].Rows), "result_rows": rowsOut})
 	})
 
+	if !selftest {
+		nestedDistinctCases(c, runner, only)
+	}
 	if only == "" && !selftest {
 		percentProbes(c, runner)
 		likeNewlineProbes(c, runner)
@@ -236,4 +241,88 @@ func likeNewlineProbes(c *core.Ctx, runner *cli.Runner) {
 			}
 		}
 	}
+}
+
+var allModes = []string{sqlrun.JSON, sqlrun.CSV, sqlrun.Batch, sqlrun.Native, sqlrun.Live}
+
+// nestedDistinctCases: a directed shape family the random generator reaches too rarely. A
+// DISTINCT inside a FROM subquery / WITH (also one level deeper) over a table whose rows agree
+// on some columns and differ only in the others, while the query above references only the
+// former: an optimizer that prunes the unreferenced columns from under the DISTINCT merges rows.
+// Enumerated: placement x outer form x (column list | *) x repetitions, modes in rotation.
+func nestedDistinctCases(c *core.Ctx, runner *cli.Runner, only string) {
+	type dcase struct {
+		id, mode, placement, outer string
+		t                          *sqlref.Table
+		q                          *sqlref.Query
+	}
+	var cases []dcase
+	reps := c.Pick(3, 24)
+	n := 0
+	for rep := 0; rep < reps; rep++ {
+		for _, pl := range sqlref.NestedDistinctPlacements {
+			for _, ou := range sqlref.NestedDistinctOuters {
+				for _, star := range []bool{false, true} {
+					mode := allModes[(n+rep)%len(allModes)]
+					rng := c.Rng(fmt.Sprintf("nested-distinct-%d", n))
+					g := sqlref.NewGen(rng, sqlref.GenOpts{MaxRows: 100, Rich: sqlrun.Rich(mode), MaxDepth: 3})
+					kind := "csv"
+					if n%2 == 1 {
+						kind = "json"
+					}
+					t, kept := g.DupHeavyTable(kind)
+					q := g.NestedDistinctQuery(t, kept, pl, ou, star)
+					cases = append(cases, dcase{id: sqlrun.CaseID(c, "nd", n), mode: mode, placement: pl, outer: ou, t: t, q: q})
+					n++
+				}
+			}
+		}
+	}
+	c.Note("nested_distinct_cases", len(cases))
+	core.Parallel(len(cases), 16, func(i int) {
+		tc := cases[i]
+		if only != "" && tc.id != only {
+			return
+		}
+		tables := []*sqlref.Table{tc.t}
+		rep := sqlrun.Check(runner, tc.q, tables, tc.mode, sqlrun.Opts{})
+		c.Eval(1)
+		c.Count("nested_distinct/"+rep.Status, 1)
+		switch rep.Status {
+		case "timeout":
+			c.Inconclusive("watchdog")
+		case "rejected":
+			c.Count("rejected/"+sqlrun.RejectClass(rep.What), 1)
+			if only != "" {
+				fmt.Printf("rejected: %s\n  %s\n", tc.q.SQL(), rep.What)
+			}
+		case "violation":
+			c.Violation(rep.Key, fmt.Sprintf("[nested DISTINCT, %s, outer %s, %s] %s", tc.placement, tc.outer, tc.mode, rep.What), sqlrun.Replay(tc.id, tc.q, tables, tc.mode, sqlrun.Opts{}, rep))
+		case "judged":
+			c.Count("nested_distinct/placement/"+tc.placement, 1)
+			c.Count("nested_distinct/outer/"+tc.outer, 1)
+			c.Count("nested_distinct/mode/"+tc.mode, 1)
+			// non-trivial: the DISTINCT level keeps rows that agree on the referenced columns
+			if inner := innermost(tc.q); inner != nil {
+				if r, err := inner.Eval(sqlref.EvalOpts{}); err == nil && len(r.Full) >= 2 {
+					c.Nontrivial(tc.q.SQL() + "\x00" + string(tc.t.FileBytes()) + "\x00" + tc.mode)
+					c.Count("nested_distinct/nontrivial", 1)
+				}
+			}
+			if only != "" {
+				fmt.Printf("judged OK: %s\n", tc.q.SQL())
+			}
+			c.Sample(map[string]interface{}{"id": tc.id, "sql": tc.q.SQL(), "mode": tc.mode, "table_rows": len(tc.t.Rows)})
+		}
+	})
+}
+
+func innermost(q *sqlref.Query) *sqlref.Query {
+	var in *sqlref.Query
+	q.Visit(func(x *sqlref.Query, _ int) {
+		if x.From.Kind == sqlref.SrcTable {
+			in = x
+		}
+	}, 0)
+	return in
 }
